@@ -24,14 +24,19 @@ NAMES_OK = ('run', 'with space', 'ünï', '-dash', 'dot.ted', 'x' * 120,
             # names that differ in little: after the last dot, blank versus
             # underscore, upper versus lower case, a trailing blank
             'solver.debug', 'solver.release', 'case 1', 'case_1', 'Upper',
-            'run ', 'run.log', 'stdout.log')
+            'run ', 'run.log', 'stdout.log',
+            # long, but a legal file name (255 bytes is the usual limit)
+            'y' * 230)
 NAMES_BAD = ('sl/ash', 'nul\0char', '.', '..', '/abs', '')
 CODE_KINDS = ('checkout', 'build')
 MARKER = '--verif-task-%d'
 STALE = 'STALE text left by an earlier run\n'
 QUIET = {'exit': 0, 'dur': 0, 'out': '', 'err': '', 'start': None, 'args': []}
 START_FAIL = {'ENOENT': FileNotFoundError, 'EACCES': PermissionError,
-              'ENOMEM': OSError, 'EAGAIN': OSError}
+              'ENOMEM': OSError, 'EAGAIN': OSError,
+              # what subprocess raises for a command line it cannot use: an
+              # argument that is not a string, a NUL byte in an argument
+              'BADARG': TypeError, 'NULBYTE': ValueError}
 
 
 def gen_scenario(rng, fam):
@@ -235,6 +240,9 @@ def run_scenario(scn, chooser, max_steps=200000):
                     fil.write(STALE * 3)
             with open(os.path.join(log_root, name + '.log'), 'w') as fil:
                 fil.write(STALE * 3)
+            if tsk['via'] == 'checkout':
+                # the clone of an earlier run is still there
+                os.makedirs(os.path.join(root, name, '.git'), exist_ok=True)
     lf = load.line_files(mods, ('queue', 'env', 'run', 'path', 'code')) \
         if scn.get('linemode') else None
     sim = core.Sim(chooser, tick=scn['tick'], max_steps=max_steps,
@@ -276,6 +284,10 @@ def run_scenario(scn, chooser, max_steps=200000):
             rec['raised'] = True
             sim.hit('startup-failure:' + cmd['start'])
             exc = START_FAIL[cmd['start']]
+            if cmd['start'] == 'BADARG':
+                raise exc('expected str, bytes or os.PathLike object, not int')
+            if cmd['start'] == 'NULBYTE':
+                raise exc('embedded null byte')
             raise exc(getattr(errno, cmd['start']),
                       os.strerror(getattr(errno, cmd['start'])), cli[0])
         # the child writes straight to the descriptors it was given
